@@ -9,6 +9,7 @@ installed lenstronomy's jampy backend) is neutralised.  Everything else is the r
 import contextlib
 import inspect
 import itertools
+import json
 import math
 import zlib
 
@@ -337,6 +338,8 @@ def gen_comp(rng):
         g = rng.choice([1, 2, 3])
         light.append({"amp": [_r(rng, 0.3, 3) for _ in range(g)], "sigma": [_r(rng, 0.2, 3) for _ in range(g)]})
     c["light"] = light
+    # two Gaussian sets declared as two light components (bulge + disk), each with its own model entry
+    c["multi_models"] = bool(len(light) == 2 and rng.random() < 0.7)
     c["prior_mean"], c["prior_std"] = rng.choice([(None, None), (None, None), (1.0, 0.2), (_r(rng, 0.5, 1.5), None)])
     return c
 
@@ -410,8 +413,9 @@ def build(case):
                   alpha_Rs_array=_arr(case["alpha_rs"]), r_s_angle_array=_arr(case["rs_angle"]),
                   kappa_s_array=_arr(case["kappa_s"]), rho0_array=_arr(case["rho0"]), r_s_array=_arr(case["rs"]),
                   is_m2l_population_level=case["pop"],
-                  kwargs_lens_light=[{k: np.array(v, dtype=float) for k, v in d.items()} for d in case["light"]],
-                  lens_light_model_list=["MULTI_GAUSSIAN"],
+                  kwargs_lens_light=[dict({k: np.array(v, dtype=float) for k, v in d.items()},
+                                          **({"center_x": 0.0, "center_y": 0.0} if case.get("multi_models") else {})) for d in case["light"]],
+                  lens_light_model_list=["MULTI_GAUSSIAN"] * (len(case["light"]) if case.get("multi_models") else 1),
                   gamma_in_prior_mean=case["prior_mean"], gamma_in_prior_std=case["prior_std"])
     return K(**kw)
 
@@ -526,6 +530,26 @@ def spec_args_pl(case, params, draw):
     return d
 
 
+_EFF_LIGHT = {}
+
+
+def light_of(case):
+    """the deflector light the composite class works with: the supplied Gaussian set, or — when the light is given as
+    SEVERAL multi-Gaussian components (bulge + disk: `multi_models`) — the single set lenstronomy's multi-Gaussian
+    decomposition merges them into (external engine, called here directly with the same arguments)"""
+    if not case.get("multi_models"):
+        return case["light"]
+    key = json.dumps([case["light"], case["r_eff"]])
+    if key not in _EFF_LIGHT:
+        from lenstronomy.Analysis.light_profile import LightProfileAnalysis
+        from lenstronomy.LightModel.light_model import LightModel
+        lpa = LightProfileAnalysis(light_model=LightModel(light_model_list=["MULTI_GAUSSIAN"] * len(case["light"])))
+        amps, sigmas, _, _ = lpa.multi_gaussian_decomposition(
+            [dict({k: np.array(v, dtype=float) for k, v in d.items()}, center_x=0.0, center_y=0.0) for d in case["light"]], r_h=case["r_eff"])
+        _EFF_LIGHT[key] = [{"amp": [float(a) for a in amps], "sigma": [float(x) for x in sigmas]}]
+    return _EFF_LIGHT[key]
+
+
 def spec_args_comp(case, params, draw):
     """documented engine arguments of the composite class; draw = (norm, r_s, log_m2l|None, r_eff, delta);
     params holds a_ani[, beta_inf], gamma_in[, log_m2l (population level)]."""
@@ -537,12 +561,12 @@ def spec_args_comp(case, params, draw):
     d = {"lens0.Rs": rs, "lens0.gamma_in": gin,
          "lens0.alpha_Rs": norm if is_alpha else kpoly(KPOLY, norm, rs, gin),
          "lens0.center_x": 0.0, "lens0.center_y": 0.0}
-    l0 = case["light"][0]
+    l0 = light_of(case)[0]
     for j, a in enumerate(l0["amp"]):
         d["lens1.amp[%d]" % j] = a * 10.0 ** log_m2l / cosmo[0]
     for j, s in enumerate(l0["sigma"]):
         d["lens1.sigma[%d]" % j] = s * dl
-    for i, kw in enumerate(case["light"]):
+    for i, kw in enumerate(light_of(case)):
         for j, a in enumerate(kw["amp"]):
             d["light%d.amp[%d]" % (i, j)] = a
         for j, s in enumerate(kw["sigma"]):
@@ -839,7 +863,7 @@ def driver_case(case, rec, raws, fac="pow10"):
         base.update(op="C16.comp", gamma_in_arr=bl(case["gamma_in_arr"]), log_m2l_arr=bl(case["log_m2l_arr"]),
                     alpha_rs=bl(case["alpha_rs"]), rs_angle=bl(case["rs_angle"]), kappa_s=bl(case["kappa_s"]),
                     rho0=bl(case["rho0"]), rs=bl(case["rs"]), pop=case["pop"],
-                    light=[[bl(d["amp"]), bl(d["sigma"])] for d in case["light"]],
+                    light=[[bl(d["amp"]), bl(d["sigma"])] for d in light_of(case)],
                     prior_mean=bits(case["prior_mean"]), prior_std=bits(case["prior_std"]),
                     cosmo=bl(lens_cosmo(case["z_lens"], case["z_source"])), kpoly=bl(KPOLY), fac=fac)
     return base
@@ -930,7 +954,11 @@ def run_draw_stream(case):
     np.random.seed(case["np_seed"])
     tag = mode_tag(case)
     with patched(rec, KPOLY), np.errstate(all="ignore"):
-        obj = build(case)
+        try:
+            obj = build(case)
+        except Exception as e:  # noqa  – a valid imaging / kinematic input must be accepted
+            return [("raised:init:" + err_enum(e), "constructor raised %s: %s on a valid input (light: %d component(s)%s)"
+                     % (type(e).__name__, str(e)[:120], len(case.get("light") or []), ", one model entry each" if case.get("multi_models") else ""))], None, []
         for _ in range(case["ndraw"]):
             if case["family"] == "pl":
                 obj.draw_lens(gamma_pl=case["fixed_gamma"], no_error=case["no_error"])
